@@ -19,17 +19,12 @@ pub fn run<S: InterpreterTrait>(interpreter: &mut S) -> Result<(), RuntimeError>
 }
 
 fn do_mid(s: &str, start: usize, opt_length: Option<usize>) -> Result<String, RuntimeError> {
+    // positions and lengths are in characters, not bytes:
+    // a character above 127 takes two bytes in a Rust string
     let start_index: usize = start - 1;
     match opt_length {
-        Some(length) => {
-            let end: usize = if start_index + length > s.len() {
-                s.len()
-            } else {
-                start_index + length
-            };
-            Ok(s.get(start_index..end).unwrap_or_default().to_string())
-        }
-        None => Ok(s.get(start_index..).unwrap_or_default().to_string()),
+        Some(length) => Ok(s.chars().skip(start_index).take(length).collect()),
+        None => Ok(s.chars().skip(start_index).collect()),
     }
 }
 
